@@ -59,7 +59,7 @@ void World::begin(uint64_t sched_salt, RunResult *r, bool keep_log, bool echo) {
   rng = Rng(mix3(sched_salt, 0xA1, 1));
   lib_rng = Rng(mix3(sched_salt, 0xB2, 2));
   simk::K().sysrng_state = mix3(sched_salt, 0xC3, 3);
-  tr.reset(keep_log, echo);
+  tr.reset(keep_log, echo || getenv("VERIF_ECHO") != nullptr);   // VERIF_ECHO=1: print trace lines as they happen (useful when a replay crashes)
   res = r;
   while (!q.empty()) q.pop();
   seq = 0;
@@ -311,12 +311,21 @@ void World::block(int node, std::function<bool()> ready, int64_t timeout_ms) {
   }
 }
 
+static void mix_wire(Trace &tr, uint64_t t_us, int kind, int from, int to, int idx, int copy, const Bytes &data) {
+  int rec[5] = {kind, from, to, idx, copy};
+  tr.mixbytes(&t_us, sizeof t_us);
+  tr.mixbytes(rec, sizeof rec);
+  tr.mixbytes(data.data(), data.size());
+  tr.n++;
+}
+
 void World::send_copy(const simk::Datagram &d, int from, int to, int idx, int copy, int64_t delay_us) {
   simk::Datagram c = d;
   after_us(delay_us, [this, c, from, to, idx, copy]() {
     int reached = simk::deliver_datagram(c);
     WireEv ev{reached ? WireEv::DELIVER : WireEv::NOSOCK, now(), &c, from, to, idx, copy};
-    if (trace_wire) tr.ev(now_us(), "%s %d>%d #%d.%d %s", reached ? "deliver" : "nosock", from, to, idx, copy, hex(c.data).c_str());
+    mix_wire(tr, now_us(), reached ? 2 : 3, from, to, idx, copy, c.data);
+    if (trace_wire) tr.line(now_us(), "%s %d>%d #%d.%d %s", reached ? "deliver" : "nosock", from, to, idx, copy, hex(c.data).c_str());
     for (auto &t : taps) t(ev);
     if (!reached && icmp_on_nosock) simk::deliver_icmp_unreach(c);
   });
@@ -326,14 +335,16 @@ void World::on_datagram(const simk::Datagram &d, int from) {
   int to = node_of_ip(d.dst.ip);
   int idx = link_count[{from, to}]++;
   int gidx = link_count[{-1, -1}]++;
-  if (trace_wire) tr.ev(now_us(), "send %d>%d #%d %s>%s %s", from, to, idx, d.src.str().c_str(), d.dst.str().c_str(), hex(d.data).c_str());
+  mix_wire(tr, now_us(), 1, from, to, idx, 0, d.data);
+  if (trace_wire) tr.line(now_us(), "send %d>%d #%d %s>%s %s", from, to, idx, d.src.str().c_str(), d.dst.str().c_str(), hex(d.data).c_str());
   WireEv ev{WireEv::SEND, now(), &d, from, to, idx, 0};
   for (auto &t : taps) t(ev);
   count("probe.datagrams");
   if (partitioned.count({from, to})) {
     count("fault.partition_drop");
     WireEv dv{WireEv::DROP, now(), &d, from, to, idx, 0};
-    if (trace_wire) tr.ev(now_us(), "drop(partition) %d>%d #%d", from, to, idx);
+    mix_wire(tr, now_us(), 4, from, to, idx, 0, Bytes());
+    if (trace_wire) tr.line(now_us(), "drop(partition) %d>%d #%d", from, to, idx);
     for (auto &t : taps) t(dv);
     return;
   }
@@ -345,7 +356,8 @@ void World::on_datagram(const simk::Datagram &d, int from) {
   switch (f->act) {
   case Fault::DROP: {
     WireEv dv{WireEv::DROP, now(), &d, from, to, idx, 0};
-    if (trace_wire) tr.ev(now_us(), "drop %d>%d #%d", from, to, idx);
+    mix_wire(tr, now_us(), 5, from, to, idx, 0, Bytes());
+    if (trace_wire) tr.line(now_us(), "drop %d>%d #%d", from, to, idx);
     for (auto &t : taps) t(dv);
     break;
   }
